@@ -335,6 +335,12 @@ Definition apply_sha (sm : sha_mod) (m : meta) : meta :=
   | ShaSet h => map (fun kv => if beqb (fst kv) c30_k_sha then (c30_k_sha, h) else kv) m
   end.
 
+(* the entry points that materialize an externally uploaded request / input batch:
+   http_unary.go handleUnary, http_stream.go handleStreamInit and handleStreamExchange,
+   server_stream.go serveStream (exchange input on the pipe).  Each hands the batch and the
+   batch's OWN metadata (all of it) to ResolveExternalLocation. *)
+Inductive route := RtHttpUnary | RtHttpInit | RtHttpExchange | RtPipeExchange.
+
 Inductive input :=
 (* externalize (b, side) under c, then resolve what came back (pointer sha edited by sm)
    against an origin serving the upload, or [sv] in its place *)
@@ -345,7 +351,11 @@ Inductive input :=
 (* overlapped externalizations of jobs (batch k, storage URL k) under schedule s (zstd or no
    compression, empty side metadata, threshold 1), then every pointer is resolved against
    the object stored for it *)
-| Conc (t : shatbl) (z : bool) (v : validator) (jobs : list (batch * bytes)) (s : list step).
+| Conc (t : shatbl) (z : bool) (v : validator) (jobs : list (batch * bytes)) (s : list step)
+(* a pointer REQUEST batch (p, its whole custom metadata m: method, version, location, checksum,
+   possibly log level, tokens) sent end to end to an entry point that resolves it before
+   dispatch; observed: what the handler was given / the refusal *)
+| Route (t : shatbl) (rt : route) (v : validator) (p : batch) (m : meta) (srv : option (served swire)).
 
 Record job_out := {
   jo_batch : batch; jo_meta : meta;           (* what externalization k returned *)
@@ -355,7 +365,8 @@ Record job_out := {
 Inductive obs :=
 | ORound (xb : batch) (xm : meta) (xerr : bool) (ups : list (swire * bool)) (res : option res_out)
 | ORes (res : res_out)
-| OConc (outs : list job_out).
+| OConc (outs : list job_out)
+| ORoute (r : res_out).   (* ROk b []: the handler was given b; RErr: refused; RPass: not resolved *)
 
 Definition dummy_batch : batch :=
   {| b_schema := []; b_smeta := []; b_rows := 0; b_vals := []; b_meta := [] |}.
@@ -393,6 +404,10 @@ Definition round_srv (up : upscript) (sv : option (swire * bool)) (ups : list (s
       end
   end.
 
+(* the fetch-info metadata is not visible to a handler *)
+Definition strip_meta (r : res_out) : res_out :=
+  match r with ROk b _ => ROk b [] | _ => r end.
+
 Definition model_by (carry : bool) (i : input) : obs :=
   match i with
   | Round t c b size side up sm sv =>
@@ -402,6 +417,7 @@ Definition model_by (carry : bool) (i : input) : obs :=
          else Some (sresolve t c (x_batch x) (apply_sha sm (x_meta x)) (round_srv up sv (x_up x))))
   | Res t c p m srv => ORes (sresolve t c p m srv)
   | Conc t z v jobs s => OConc (conc_outs false t z v jobs s)
+  | Route t rt v p m srv => ORoute (strip_meta (sresolve t (Some (conc_cfg false v)) p m srv))
   end.
 Definition model : input -> obs := model_by true.
 (* the shared-pool variant of the serialization buffer (never the code on main) *)
@@ -427,6 +443,7 @@ Definition obs_eqb (a b : obs) : bool :=
   | ORound xb xm xe ups r, ORound xb' xm' xe' ups' r' =>
       batch_eqb xb xb' && meta_eqb xm xm' && Bool.eqb xe xe' && ups_eqb ups ups' && opt_eqb res_eqb r r'
   | ORes r, ORes r' => res_eqb r r'
+  | ORoute r, ORoute r' => res_eqb r r'
   | OConc a, OConc b =>
       list_eqb (fun x y => batch_eqb (jo_batch x) (jo_batch y) && meta_eqb (jo_meta x) (jo_meta y)
                            && ups_eqb (jo_up x) (jo_up y) && opt_eqb res_eqb (jo_res x) (jo_res y)) a b
@@ -581,6 +598,11 @@ Definition spec_ok (i : input) (o : obs) : bool :=
                  (seq 0 (length jobs))
   | Conc _ _ _ _ _, _ => false
   | _, OConc _ => false
+  (* on EVERY entry point: what reaches the handler is a data batch of the checksum-verified,
+     well-framed download; an honest download is delivered; refusals only for pointers *)
+  | Route t rt v p m srv, ORoute r => spec_res t (Some (conc_cfg false v)) p m srv r
+  | Route _ _ _ _ _ _, _ => false
+  | _, ORoute _ => false
   | _, _ => spec_ok_seq i o
   end.
 
@@ -590,6 +612,7 @@ Definition digest_ok (i : input) : bool :=
   | Round t _ b _ side _ _ _ => nonempty (ssha t (SIpc [with_side b side]))
   | Res _ _ _ _ _ => true
   | Conc t _ _ jobs _ => forallb (fun j => nonempty (ssha t (SIpc [fst j]))) jobs
+  | Route _ _ _ _ _ _ => true
   end.
 
 (* what the overlapped runs are quantified over: a schedule that keeps every externalization's
